@@ -429,7 +429,8 @@ class _Base(Prop):
         if tier == "quick":
             return [{"module": "MC_HtmlTools", "cfg": "HtmlTools_quick.cfg"}]
         return [{"module": "MC_HtmlTools", "cfg": "HtmlTools_thorough.cfg", "export": False},
-                {"module": "MC_HtmlTools", "cfg": "HtmlTools_thorough_gen.cfg"}]
+                {"module": "MC_HtmlTools", "cfg": "HtmlTools_thorough_gen.cfg"},
+                {"module": "MC_HtmlTools", "cfg": "HtmlTools_sim.cfg", "simulate": "num=2000", "depth": 10, "export": False, "timeout": 900}]
 
     def execute(self, g):
         import htmltools as H
